@@ -104,6 +104,8 @@ class Summ:
                 return 'variant'
             if isinstance(inner, tuple) and inner[0] == 'payload' and inner[1] == 'Data::Union':
                 return 'union-fields'
+            if isinstance(inner, tuple) and inner[0] in ('ite', 'iflet', 'some_of', 'index'):
+                return 'variant'
         if base[0] == 'field' and base[2] in ('named', 'unnamed'):
             inner = base[1]
             if isinstance(inner, tuple) and inner[0] == 'payload' and inner[1] in ('Fields::Named', 'Fields::Unnamed'):
